@@ -30,6 +30,8 @@ import (
 //   read  Shape / NElems / At / Sum / Mean / Var on value X (no new value)
 //   rand  RandU / RandN of the shape of value X (new value, not compared)
 //   ctor  a constructor call: Eye(X) for X in 1..24, or Full/Zeros/Ones of the shape of value -X-1
+//   own   X.Scale(1) turned into a fresh tracked leaf by ResetGradContext(true): a private
+//         parameter initialised from (possibly shared) values
 //   bp    BackPropagate(value X); X depends on no shared tracked tensor
 type GStep struct {
 	Kind  string     `json:"kind"`
@@ -144,7 +146,36 @@ func genC20(t *rapid.T) C20Case {
 				m.tracked = append(m.tracked, tracked)
 				m.random = append(m.random, random)
 			}
-			switch k := rapid.IntRange(0, 12).Draw(t, "kind"); {
+			switch k := rapid.IntRange(0, 14).Draw(t, "kind"); {
+			case k == 13:
+				x := rapid.SampledFrom(all).Draw(t, "ownx")
+				st.Kind, st.X = "own", x
+				add(m.shapes[x], false, true, m.random[x])
+			case k == 14:
+				// a private tracked value with three consumers whose contributions do not sum
+				// exactly in every order, back-propagated at once (ends the program like any bp)
+				var cand []int
+				for i := nShared; i < len(m.shapes); i++ {
+					if !m.tainted[i] && m.tracked[i] && !m.random[i] {
+						cand = append(cand, i)
+					}
+				}
+				if len(cand) == 0 {
+					continue
+				}
+				x := rapid.SampledFrom(cand).Draw(t, "fanx")
+				b := len(m.shapes)
+				for _, f := range []float64{0.1, 0.2, 0.3} {
+					gp.Steps = append(gp.Steps, GStep{Kind: "op", Node: &prog.Node{Op: "scale", In: []int{x}, F: f}})
+					add(m.shapes[x], false, true, false)
+				}
+				gp.Steps = append(gp.Steps, GStep{Kind: "op", Node: &prog.Node{Op: "add", In: []int{b, b + 1}}, Yield: st.Yield})
+				add(m.shapes[x], false, true, false)
+				gp.Steps = append(gp.Steps, GStep{Kind: "op", Node: &prog.Node{Op: "add", In: []int{b + 3, b + 2}}})
+				add(m.shapes[x], false, true, false)
+				gp.Steps = append(gp.Steps, GStep{Kind: "bp", X: b + 4})
+				nsteps = len(gp.Steps)
+				continue
 			case k == 12:
 				st.Kind = "ctor"
 				if rapid.Bool().Draw(t, "eye") {
@@ -396,6 +427,14 @@ func runG(c C20Case, w *c20World, gp GProg) (res gResult) {
 					y, err = tensor.Ones(x.Shape(), lib.Conf(true))
 				}
 			}
+		case "own":
+			x, ok := get(st.X)
+			if !ok {
+				return
+			}
+			rnd = random[st.X]
+			y = x.Scale(1)
+			y.ResetGradContext(true)
 		case "bp":
 			x, ok := get(st.X)
 			if !ok {
